@@ -52,7 +52,7 @@ func runPubBurst(c pubCase) (logs []string, nEvents int, timedOut bool) {
 	for _, o := range c.Ops {
 		switch o.K {
 		case "subscribe":
-			if ps.Subscribe(o.T, subs[o.S]) {
+			if ps.Subscribe(pubTopic(o.T), subs[o.S]) {
 				mu.Lock()
 				subs[o.S].subs[o.T] = true
 				mu.Unlock()
@@ -60,9 +60,9 @@ func runPubBurst(c pubCase) (logs []string, nEvents int, timedOut bool) {
 		case "unsubscribe":
 			ps.Unsubscribe(subs[o.S])
 		case "publish":
-			ps.Publish(o.T, o.E)
+			ps.Publish(pubTopic(o.T), o.E)
 		case "close":
-			ps.Close(o.T)
+			ps.Close(pubTopic(o.T))
 		case "shutdown":
 			ps.Shutdown()
 			shut = true
@@ -152,6 +152,9 @@ func genPubBurst(r *rng.R) pubCase {
 	for i := 0; i < n; i++ {
 		x := r.Intn(100)
 		t := uint64(r.Range(1, nt))
+		if r.P(1, 8) {
+			t = 0 // the nil interface value: a topic like any other
+		}
 		s := uint64(r.Range(1, ns))
 		switch {
 		case x < 25 || i < ns:
